@@ -459,7 +459,7 @@ func genC07(rng *core.Rand, env *core.Env, run int) *Scenario {
 			k.Databases = 2 + r.Intn(2)
 		}
 		quiet := sc.Variant == "rconf" || sc.Variant == "fault-free" || sc.Variant == "snapshots"
-		sprinkleMgmt(r, sc, 1+r.Intn(4), quiet && len(sc.Faults.Kinds) == 0 && r.Bool(0.3))
+		sprinkleMgmt(r, sc, 1+r.Intn(4), quiet && len(sc.Faults.Kinds) == 0 && k.DropPM == 0 && r.Bool(0.3))
 	}
 	prescreen(sc)
 	return sc
